@@ -61,6 +61,19 @@ const HAND: &[(&str, &str)] = &[
         (func (export "peek") (param i32) (result i32) local.get 0 i32.load8_u)
         (func (export "grow") (param i32) (result i32) local.get 0 memory.grow)
         (func (export "fill") (param i32 i32 i32) local.get 0 local.get 1 local.get 2 memory.fill))"#),
+    // the three kinds of element segment behave differently under table.init / elem.drop: a DECLARED segment is dropped at instantiation (table.init with a
+    // non-zero length traps), a passive one can be copied until it is dropped, an active one is dropped after instantiation
+    ("segment-kinds", r#"(module (table (export "t0") 4 funcref) (func $f (result i32) i32.const 42) (func $g (result i32) i32.const 7)
+        (elem $decl declare func $f) (elem $pass func $g $f) (elem $act (i32.const 3) $g)
+        (func (export "init_declared") (param i32) i32.const 0 i32.const 0 local.get 0 table.init $decl)
+        (func (export "init_passive") (param i32) i32.const 1 i32.const 0 local.get 0 table.init $pass)
+        (func (export "init_active") (param i32) i32.const 2 i32.const 0 local.get 0 table.init $act)
+        (func (export "init_declared1") i32.const 0 i32.const 0 i32.const 1 table.init $decl)
+        (func (export "init_passive1") i32.const 1 i32.const 1 i32.const 1 table.init $pass)
+        (func (export "init_active1") i32.const 2 i32.const 0 i32.const 1 table.init $act)
+        (func (export "drop_passive") elem.drop $pass)
+        (func (export "reff") (result funcref) ref.func $f)
+        (func (export "call") (param i32) (result i32) local.get 0 call_indirect (result i32)))"#),
     ("unused-things", r#"(module (memory 1) (global $unused (mut i64) (i64.const 9)) (func $dead_fn (result i32) i32.const 77)
         (func $helper (param i64) (result i64) local.get 0 i64.const 3 i64.mul) (func (export "f") (param i64) (result i64) local.get 0 call $helper)
         (func (export "sel") (param i32 i32 i32) (result i32) local.get 0 local.get 1 local.get 2 select))"#),
